@@ -785,6 +785,11 @@ func run(raw json.RawMessage) driver.Result {
 	if d.kind != dMap { // a planted non-mapping at top level
 		d = dM()
 	}
+	// two renderings in three draw among the alternative spellings of the same data
+	sp = nil
+	if spellState := r.U64(); spellState%3 != 0 {
+		sp = coqfmt.NewRng(spellState)
+	}
 	switch in.K {
 	case "dupkey":
 		// one key on two fields of one struct (directly, or by hoisting an embedded struct's field):
